@@ -174,6 +174,18 @@ def step2 (st : Option PartSet.PartSet × Option PartsState) (toks : List String
       let (cs', res) := consAddPart Hs cs h r { index := idx, bytes := b, proof := pr }
       ((st.1, some cs'), showCons res)
     | _, _, _, _, _, _ => (st, "bad-op")
+  | "proposal" :: rest =>
+    match (kv rest "type").bind String.toNat?, (kv rest "h").bind String.toInt?, (kv rest "r").bind String.toInt?,
+          (kv rest "pol").bind String.toInt?, (kv rest "bh").bind ofHex, (kv rest "total").bind String.toNat?,
+          (kv rest "root").bind ofHex, (kv rest "siglen").bind String.toNat? with
+    | some ty, some h, some r, some pol, some bh, some t, some root, some sl =>
+      (st, match proposalValidateBasic { isProposalType := ty == 32, height := h, round := r, polRound := pol,
+                                         blockHash := bh, total := t, root := root, sigLen := sl } with
+        | .ok _ => "ok" | .error .type => "err-type" | .error .height => "err-height"
+        | .error .round => "err-round" | .error .pol => "err-pol" | .error .blockID => "err-blockid"
+        | .error .incomplete => "err-incomplete" | .error .sigMissing => "err-sig-missing"
+        | .error .sigTooBig => "err-sig-too-big")
+    | _, _, _, _, _, _, _, _ => (st, "bad-op")
   | ["cdone"] =>
     match st.2 with
     | some cs =>
